@@ -337,6 +337,14 @@ YR_API void yr_compiler_destroy(YR_COMPILER* compiler)
     fixup = next_fixup;
   }
 
+  // Identifiers of the variables of the loops that were being parsed when the
+  // parser was aborted.
+  for (int i = 0; i <= compiler->loop_index; i++)
+  {
+    for (int j = 0; j < compiler->loop[i].vars_count; j++)
+      yr_free((void*) compiler->loop[i].vars[j].identifier.ptr);
+  }
+
   yr_free(compiler);
 }
 
